@@ -21,6 +21,10 @@ Blk5 == << <<4>> >>
 InsP == <<{1}, {2, 51}, {51}, {2}>>
 RelP == <<TRUE, TRUE, TRUE, TRUE>>
 BlkP == << <<1>>, <<3>> >>
+\* four transactions on one outpoint: three of them can be in the mempool when the fourth is confirmed
+InsQ == <<{1}, {1}, {1}, {1}>>
+RelQ == <<TRUE, TRUE, TRUE, TRUE>>
+BlkQ == << <<4>> >>
 SrcTT == {"TT"}
 Src5 == {"TT", "UT", "LOC", "TX", "UX"}
 SrcAll == {"TT", "UT", "LOC", "TX", "UX", "NU", "NX"}
